@@ -30,7 +30,9 @@ func c05Gen(seed uint64, i int) *c05Case {
 	rng := gen.Derive(seed, "C05", i)
 	sc := gen.DefaultScope
 	sc.CapHeavy = true
-	sc.Globals = false
+	sc.Globals = i%3 == 0
+	sc.GlobalCaps = true
+	sc.Preds = false
 	sc.MaxDepth = 2
 	if i%2 == 0 {
 		sc.Alpha = "ab1"
@@ -43,10 +45,10 @@ func c05Gen(seed uint64, i int) *c05Case {
 		c.Body = gen.NameLoops(rng, c.Body, &n)
 	}
 	// make sure there is something to capture
-	if len(gen.CaptureNames(c.Body)) == 0 {
+	if len(gen.CaptureNames(c.Body))+len(gen.GlobalCaptureNames(p, c.Body)) == 0 {
 		c.Body = append(c.Body, gen.Capture{Name: "w1", Body: gen.Seq{Items: []gen.Node{gen.Loop{Min: 0, Max: 2, Form: "atmost", Body: gen.Class{Kind: "letter"}}}}})
 	}
-	caps := gen.CaptureNames(c.Body)
+	caps := append(gen.CaptureNames(c.Body), gen.GlobalCaptureNames(p, c.Body)...)
 	loops := gen.LoopNames(c.Body)
 	cs := &c05Case{trs: map[string]*c05Transform{}, loopNames: map[string]bool{}}
 	for _, l := range loops {
